@@ -36,8 +36,8 @@ type wsBatchObs struct {
 	Closed   []int     `json:"conn_closed_after"` // frame indices after which the library closed the connection
 	Crashed  int       `json:"crashed_at"`        // -1, or index of the frame after which the worker died
 	CrashLog string    `json:"crash_log,omitempty"`
-	ChanVals []int     `json:"chan_vals"`   // client role: values delivered to the subscribed channel
-	ChanOpen bool      `json:"chan_open"`   // client role: channel still open at the end
+	ChanVals []int     `json:"chan_vals"` // client role: values delivered to the subscribed channel
+	ChanOpen bool      `json:"chan_open"` // client role: channel still open at the end
 	Oracle   string    `json:"oracle_fail,omitempty"`
 }
 
